@@ -219,6 +219,26 @@ func (c *Ctx) callsTransitively(fn *ssa.Function, depth int, match func(*core.Ca
 	if fn == nil {
 		return false
 	}
+	// function literals defined in fn are part of its body (unless they are only started as goroutines)
+	for _, b := range fn.Blocks {
+		for _, in := range b.Instrs {
+			if mc, ok := in.(*ssa.MakeClosure); ok {
+				asGo := false
+				if mc.Referrers() != nil {
+					for _, r := range *mc.Referrers() {
+						if _, isGo := r.(*ssa.Go); isGo {
+							asGo = true
+						}
+					}
+				}
+				if cf, ok := mc.Fn.(*ssa.Function); ok && !asGo && cf != fn {
+					if c.callsTransitively(cf, depth, match) {
+						return true
+					}
+				}
+			}
+		}
+	}
 	for _, cl := range core.CallsIn(fn) {
 		if _, isGo := cl.Instr.(*ssa.Go); isGo {
 			continue // starting a goroutine is not calling it
